@@ -17,6 +17,8 @@ Member type grammar (lists):
   ["ct", Name]              member whose type is a named callback typedef
   ["pa", T]                 pointer used as array (<array c:type="T*"> without fixed-size)
   ["gl", which]             GList* / GSList* / GHashTable* / GError* member
+  ["d", Name]               member whose type is a "pointer"/"disguised" record (typedef struct _X *Name;)
+  ["al", Name]              member whose type is an <alias> of a basic type
   ["flex", T]               C99 flexible array member  T m[];          (unknown size)
   ["ni", ctype]             non-introspectable member of a type the GIR cannot name (unknown size)
   ["nik", girname]          non-introspectable member of a known basic type
@@ -28,6 +30,8 @@ Declarations:
   ["S", Name, [T..]] struct      ["U", Name, [T..]] union     ["O", Name, [T..]] class (instance struct)
   ["B", Name, [T..]] struct registered as boxed (glib:type-name)
   ["E", Name, [values], is_flags]  enumeration            ["C", Name] callback typedef
+  ["P", Name, attr]  typedef struct _Name *Name;  (record with attr="pointer" or "disguised" set)
+  ["A", Name, girname]  typedef <basic> Name;  (<alias>)
 """
 from vt import girgen as G
 
@@ -106,8 +110,10 @@ def type_sa(t, env, c_view=True):
     k = t[0]
     if k == 'b':
         return BASIC[t[1]][1], BASIC[t[1]][2]
-    if k in ('p', 'cb', 'ct', 'pa', 'gl'):
+    if k in ('p', 'cb', 'ct', 'pa', 'gl', 'd'):
         return 8, 8
+    if k == 'al':
+        return BASIC[env[t[1]][2]][1], BASIC[env[t[1]][2]][2]
     if k == 'e':
         s, a, _ = enum_abi(env[t[1]][2])
         return s, a
@@ -206,7 +212,7 @@ def c_member(t, name, pfx, local):
     k = t[0]
     if k == 'b':
         return '%s %s' % (BASIC[t[1]][0], name)
-    if k in ('e', 'v', 'ct'):
+    if k in ('e', 'v', 'ct', 'd', 'al'):
         return 'C%s %s' % (_resolve(t[1], pfx, local), name)
     if k == 'p':
         return 'C%s *%s' % (_resolve(t[1], pfx, local), name)
@@ -245,6 +251,10 @@ def c_forward(d, pfx, local):
         return 'typedef enum { %s } C%s;' % (body, n)
     if d[0] == 'C':
         return 'typedef void (*C%s) (int x);' % n
+    if d[0] == 'P':
+        return 'typedef struct _C%s *C%s;' % (n, n)
+    if d[0] == 'A':
+        return 'typedef %s C%s;' % (BASIC[d[2]][0], n)
     raise ValueError(d)
 
 
@@ -335,9 +345,12 @@ def gir_type(t, pfx, local):
         if t[1] in G.BASIC:
             return G.B(t[1])
         return RawT('<type name="%s" c:type="%s"/>' % (t[1], t[1]))
-    if k in ('e', 'v', 'ct'):
+    if k in ('e', 'v', 'ct', 'd'):
         n = _resolve(t[1], pfx, local)
         return G.I(n, 'C' + n, byref=0)
+    if k == 'al':
+        n = _resolve(t[1], pfx, local)
+        return RawT('<type name="%s" c:type="C%s"/>' % (n, n))
     if k == 'p':
         n = _resolve(t[1], pfx, local)
         return G.I(n, 'C' + n, byref=1)
@@ -394,6 +407,10 @@ def gir_entry(d, pfx, local):
         return G.EnumN(n, ms, flags=bool(d[3]))
     if k == 'C':
         return G.CallbackT(n, G.Ret(G.B('none')), [G.Param('x', G.B('gint'))], ctype='C' + n)
+    if k == 'P':
+        return G.RecordN(n, [], pointer=(d[2] == 'pointer'), disguised=(d[2] == 'disguised'))
+    if k == 'A':
+        return G.AliasN(n, G.B(d[2]))
     raise ValueError(d)
 
 
